@@ -201,28 +201,33 @@ def check_class(ctx, u, cls, fs, kind):
                 blk = enclosing(x, ('CompoundStmt',))
                 adj = [y for y in kids(blk) if strip(y).get('kind') == 'CompoundAssignOperator' and canon(strip(y)['inner'][0]) == 'this.total_size']
                 key = '%s::%s|size-write#%d' % (lab, f.get('name'), k_)
-                ok = len(adj) == 1
+                from poly import Poly as _P, p_add as _padd, p_str as _pstr
+                PLs = _P(f, u)
+                item = canon(x['inner'][0])
+                newp = PLs.poly(x['inner'][1])
+                oldp = PLs.poly(x['inner'][0])
                 why = 'the entry size is overwritten without adjusting total_size in the same block'
-                if ok:
-                    a = strip(adj[0])
-                    newv = nf(x['inner'][1])
-                    item = canon(x['inner'][0])
-                    e = nf(a['inner'][1])
-                    op = a.get('opcode')
-                    if op == '+=' and e == newv:
-                        # new entry: nothing subtracted; the old size must be irrelevant (fresh item)
-                        ok = True
-                    elif op == '+=' and e == '(%s - %s)' % (newv, item):
-                        ok = a.get('_off', 0) < x.get('_off', 0)
+                ok = False
+                if adj and all(strip(y)['opcode'] in ('+=', '-=') for y in adj):
+                    net = {}
+                    reads_old_after = False
+                    for y in adj:
+                        a = strip(y)
+                        net = _padd(net, PLs.poly(a['inner'][1]), 1 if a['opcode'] == '+=' else -1)
+                        # the old size must be read before it is overwritten (directly, or through a local computed earlier)
+                        mentions_old = item in canon(a['inner'][1])
+                        if mentions_old and a.get('_off', 0) > x.get('_off', 0):
+                            reads_old_after = True
+                    for v_ in walk(body):
+                        if v_.get('kind') == 'VarDecl' and kids(v_) and item in canon(kids(v_)[-1]) and v_.get('_off', 0) > x.get('_off', 0) and any((ref_decl(z_) or {}).get('id') == v_.get('id') for y in adj for z_ in walk(y)):
+                            reads_old_after = True
+                    if net == newp:
+                        ok = True      # a fresh entry: nothing to subtract
+                    elif net == _padd(newp, oldp, -1):
+                        ok = not reads_old_after
                         why = 'total_size is adjusted by (new - old) after the old size was already overwritten'
-                    elif op == '+=' and ref_decl(a['inner'][1]):
-                        vd = next((v for v in walk(body) if v.get('kind') == 'VarDecl' and v.get('id') == ref_decl(a['inner'][1])['id']), None)
-                        d = nf(kids(vd)[-1]) if vd is not None and kids(vd) else None
-                        ok = d == '(%s - %s)' % (newv, item) and vd.get('_off', 0) < x.get('_off', 0)
-                        why = 'size delta %s is not (new - old) computed before the overwrite' % d
                     else:
-                        ok = False
-                        why = 'total_size adjustment `%s %s` does not match the size written (%s)' % (op, e, newv)
+                        why = 'total_size changes by %s in this block, the size written changes the entry by %s' % (_pstr(net), _pstr(_padd(newp, oldp, -1)))
                 ctx.check(ok, R, key, x, 'total_size adjusted by the same delta', why)
     cl = byname.get('clear', [None])[0]
     if cl is not None:
@@ -384,6 +389,8 @@ def run(ctx):
     ctx.rule('C12-R6', 'list surgery by shape evaluation (E-SHAPE): unlink_item, link_item and touch_item folded on every doubly linked list of up to 5 entries with the item at every position leave the list well-formed in both directions with the expected order', 8)
     SHAPE_DECIDED.clear()
     ctx.defer({'C12-R2'}, 'C12-R6', only=lambda k_: ('|unlink|' in k_ or '|link|' in k_) and k_.split('|')[0] in SHAPE_DECIDED or (k_.startswith('LRUSet/LRUMap|') and len(SHAPE_DECIDED) == 4))
+    # touch_item is folded on list shapes as a whole (also with the item at the head): how it spells its shortcut is immaterial
+    ctx.defer({'C12-R5'}, 'C12-R6', only=lambda k_: k_.endswith('::touch_item|head-shortcut') and k_.split('::touch_item')[0] in SHAPE_DECIDED)
     ctx.rule('C12-R5', 'recency table: which operations refresh recency (insert-existing, at, touch, change_size(touch)) and which do not (peek, item_size, count, size, LRUSet::change_size); the head shortcut skips only the relink', 18)
     R = 'C12-R1'
     okall = True
